@@ -4,7 +4,7 @@
    caller = base caller of one column; the implementation's is [fun os => fst (call pc os)]. *)
 From Coq Require Import ZArith List Bool QArith.
 Import ListNotations.
-From SCMO Require Import Lib.PyInt Model.C15 Proofs.C15_a Proofs.C15_b Proofs.C15_c Proofs.C15_d Proofs.C15_e Proofs.C15.
+From SCMO Require Import Lib.PyInt Model.C15 Proofs.C15_a Proofs.C15_b Proofs.C15_c Proofs.C15_d Proofs.C15_e Proofs.C15 Proofs.C15_h.
 Open Scope Z_scope.
 
 (* the aligned (M) positions of all records, in order, are exactly the sorted distinct reference
@@ -146,6 +146,49 @@ Theorem C15_tags : forall caller ref maxN m reads recs r,
   (forall u, m_umi m = Some u -> c_BC r = Some (m_bc m) /\ c_MI r = Some (m_bc m ++ u)).
 Proof. exact record_tags. Qed.
 Print Assumptions C15_tags.
+
+(* one molecule object over time (AddFragment / AddMolecule / Consensus max_N_span, any sequence):
+   the answer to every consensus request is the one computed from the fragments held at that moment,
+   whatever was requested or added before; the fragments held are the initial ones followed by all
+   additions in order (requests leave no trace) *)
+Theorem C15_history_stateless : forall (A : Type) (ans : option Z -> list frag -> A) pre st mx post,
+  nth_error (run_ops ans (pre ++ Consensus mx :: post) st) (n_requests pre) = Some (ans mx (held pre st)) /\
+  held pre st = st ++ flat_map added pre /\
+  length (run_ops ans (pre ++ Consensus mx :: post) st) = n_requests (pre ++ Consensus mx :: post).
+Proof.
+  intros A ans pre st mx post.
+  exact (conj (run_ops_stateless ans pre st mx post) (conj (held_added pre st) (run_ops_length ans _ st))).
+Qed.
+Print Assumptions C15_history_stateless.
+
+(* dropping a consensus request from a history leaves every other answer unchanged *)
+Theorem C15_history_requests_independent : forall (A : Type) (ans : option Z -> list frag -> A) pre st mx post,
+  run_ops ans (pre ++ post) st =
+  firstn (n_requests pre) (run_ops ans (pre ++ Consensus mx :: post) st) ++
+  skipn (S (n_requests pre)) (run_ops ans (pre ++ Consensus mx :: post) st).
+Proof. intros A. exact (@run_ops_drop_request A). Qed.
+Print Assumptions C15_history_requests_independent.
+
+(* hence every answer in a history aligns exactly the positions covered by ALL reads held at that moment
+   (later additions included, earlier answers irrelevant) and counts all fragments held *)
+Theorem C15_history_blocks : forall caller ref b pre st mx post recs,
+  nth_error (run_ops (answer caller ref b) (pre ++ Consensus mx :: post) st) (n_requests pre) = Some (Some recs) ->
+  flat_map rec_positions recs = covered (reads_of (st ++ flat_map added pre)) /\
+  Forall (fun r => okM mx (c_cigar r)) recs /\
+  forall r, In r recs -> c_TF r = Z.of_nat (length (st ++ flat_map added pre)) + 0.
+Proof. exact history_blocks. Qed.
+Print Assumptions C15_history_blocks.
+
+(* non-vacuity: consensus, add a fragment further downstream, consensus again with another max_N_span *)
+Example C15_history_example :
+  let f1 := mkFrag [65] 60 [mkRead 10 [(0,3)] [65;67;71] [30;30;30]] in
+  let f2 := mkFrag [65] 60 [mkRead 10 [(0,2)] [65;67] [30;30]; mkRead 20 [(0,2)] [84;84] [30;30]] in
+  map (option_map (map (fun r => (c_start r, c_cigar r, c_TF r))))
+      (run_ops (answer (fun os => fst (call_fast (pc_of [0; 2 ^ 59]) os)) (fun _ => 65) (mkBase [83] (Some 10) [66] (Some false)))
+               [Consensus None; AddFragment f2; Consensus None; Consensus (Some 3)] [f1])
+  = [Some [(10, [CM 3], 1)]; Some [(10, [CM 3; CN 7; CM 2], 2)]; Some [(10, [CM 3], 2); (20, [CM 2], 2)]].
+Proof. vm_compute. reflexivity. Qed.
+Print Assumptions C15_history_example.
 
 (* tie of the executable model to the theorems: the model run by the correspondence check calls
    bases with call_fast (no division by the total); for a table of probabilities in [0,1) that is
